@@ -4,7 +4,7 @@ from hypothesis import strategies as st
 
 from amaranth_soc.wishbone.sram import WishboneSRAM
 
-from vlib import sim
+from vlib import sim, gens
 from vlib.csrmodel import hval
 from vlib.common import Violation
 
@@ -21,7 +21,7 @@ RULE = ("SRAM geometry (size 1..256 granules, data width 8-64, granularity <= da
 BUDGET = {"quick": (16, 500), "thorough": (16, 8000)}
 ESSENTIAL = ["writable", "read_only", "partial_select_write", "held_through_ack", "changed_during_ack",
              "stb_only", "cyc_only", "read_after_write", "write_to_read_only", "refused_geometry",
-             "granularity<dw", "init_short"]
+             "granularity<dw", "init_short", "init_one_shot_iterable"]
 ASSUMPTIONS = ["memory rows are observed through the simulator's access to lib.memory.Memory.data rows",
                "dat_r is only compared in the acknowledge cycle of a read"]
 
@@ -34,17 +34,20 @@ def _spec(draw, tier):
     if draw(st.integers(0, 19)) == 0:
         size = draw(st.sampled_from([3, 0, 6]))
     init_mode = draw(st.sampled_from(["none", "short", "full", "full"]))
+    init_kind = draw(st.sampled_from(["list", "list", "tuple", "generator", "iter", "map"]))
     return {"size": size, "dw": dw, "g": g, "writable": draw(st.sampled_from([True, True, False])),
-            "init_mode": init_mode, "dseed": draw(st.integers(0, 1 << 30)), "cycles": draw(st.integers(20, 150)),
+            "init_mode": init_mode, "init_kind": init_kind, "dseed": draw(st.integers(0, 1 << 30)), "cycles": draw(st.integers(20, 150)),
             "p_hold": draw(st.sampled_from([1, 2, 3])), "p_req": draw(st.sampled_from([2, 3, 3])),
             "adr_span": draw(st.sampled_from([1, 2, 4, 0]))}
 
 
 def strategy(tier):
-    return _spec(tier)
+    return gens.with_pre(_spec(tier))
 
 
 def check(spec, stats):
+    if sim.set_pre(spec):
+        stats.label("pre_elaborated")
     dw, size, seed = spec["dw"], spec["size"], spec["dseed"]
     g = dw if spec["g"] is None else spec["g"]
     legal = size > 0 and size & (size - 1) == 0 and size * g >= dw
@@ -53,8 +56,12 @@ def check(spec, stats):
     if legal and spec["init_mode"] != "none":
         n = depth if spec["init_mode"] == "full" else max(1, depth // 2)
         init = [hval(seed, "init", i, dw) for i in range(n)]
+    kind = spec.get("init_kind", "list")
+    init_arg = {"list": lambda: list(init), "tuple": lambda: tuple(init), "generator": lambda: (v for v in init),
+                "iter": lambda: iter(init), "map": lambda: map(int, init)}[kind]()
+    stats.label("init_one_shot_iterable", kind in ("generator", "iter", "map") and any(init))
     try:
-        dut = WishboneSRAM(size=size, data_width=dw, granularity=spec["g"], writable=spec["writable"], init=init)
+        dut = WishboneSRAM(size=size, data_width=dw, granularity=spec["g"], writable=spec["writable"], init=init_arg)
     except (TypeError, ValueError) as e:
         if size == 1:
             stats.label("size1_refused")      # below the stated domain (2..N granules): either outcome
@@ -77,6 +84,8 @@ def check(spec, stats):
     stats.label("granularity<dw", g < dw)
     stats.label("init_short", 0 < len(init) < depth)
     image = list(init) + [0] * (depth - len(init))
+    if [int(v) for v in dut.init] != image:
+        raise Violation("C15/init-property", f"SRAM.init = {[int(v) for v in dut.init][:8]}..., constructor was given {image[:8]}...")
     nsel = dw // g
     top = sim.wrap(dut)
     st_ = {"ack": 0, "prev": None, "read_exp": None, "written": set(), "req_prev": None}
